@@ -116,6 +116,8 @@ struct Em<'a> {
     types: &'a mut Types,
     budget: i32,
     rich: bool,
+    /// functions that may be the target of `ref.func` (declared in an element segment)
+    ref_funcs: Vec<u32>,
 }
 
 impl Em<'_> {
@@ -308,6 +310,61 @@ impl Em<'_> {
         }
     }
 
+    /// `br_on_null` / `br_on_cast` / `br_on_cast_fail` on the abstract `func` heap type
+    fn ref_branch(&mut self) {
+        let non_null = self.rng.chance(1, 2) && !self.ref_funcs.is_empty();
+        let push_ref = |em: &mut Self| {
+            if non_null {
+                let f = *em.rng.pick(&em.ref_funcs);
+                em.out.push(Ins::RefFunc(f));
+            } else {
+                em.out.push(Ins::RefNull(true));
+            }
+        };
+        if self.rng.chance(1, 3) {
+            // br_on_null to an enclosing label without values
+            let cands: Vec<usize> = (0..self.labels.len())
+                .filter(|d| {
+                    let l = self.labels[self.labels.len() - 1 - d];
+                    !l.is_loop && l.arity < 100 && if l.func_results { self.results.is_empty() } else { l.arity == 0 }
+                })
+                .collect();
+            let d = match self.rng.pick_opt(&cands) {
+                Some(d) => *d,
+                None => return self.plain(),
+            };
+            let m_br = self.mark();
+            push_ref(self);
+            let idx = self.out.len() as u32;
+            self.out.push(Ins::BrOnNull(d as u32));
+            let m_post = self.mark();
+            self.out.push(Ins::Drop);
+            self.info.branches.push(BranchInfo { idx, m_br, m_post: Some(m_post), targets_loop: false, conditional: true });
+        } else {
+            // a funcref-typed block that only the cast branch targets
+            let fail = self.rng.chance(1, 2);
+            let opener = self.out.len() as u32;
+            self.out.push(Ins::Block(BT::Val(VT::FuncRef)));
+            self.labels.push(Lbl { is_loop: false, arity: 200, func_results: false });
+            let m_entry = self.mark();
+            let m_br = self.mark();
+            push_ref(self);
+            let idx = self.out.len() as u32;
+            self.out.push(if fail { Ins::BrOnCastFail(0, true, false) } else { Ins::BrOnCast(0, true, true) });
+            let m_post = self.mark();
+            self.info.branches.push(BranchInfo { idx, m_br, m_post: Some(m_post), targets_loop: false, conditional: true });
+            self.out.push(Ins::Drop);
+            self.out.push(Ins::RefNull(true));
+            let m_fall = self.mark();
+            let end = self.out.len() as u32;
+            self.out.push(Ins::End);
+            self.labels.pop();
+            let m_after = self.mark();
+            self.out.push(Ins::Drop);
+            self.info.constructs.push(Construct { opener, kind: CK::Block, else_idx: None, end, m_entry, m_fall, m_else_entry: None, m_else_fall: None, m_after });
+        }
+    }
+
     fn risky(&mut self) {
         // rarely: an instruction that may trap (division by a possibly-zero value / wild load)
         if self.rng.chance(1, 2) {
@@ -350,6 +407,8 @@ impl Em<'_> {
         if r < 34 || nest >= 4 {
             if self.rng.chance(1, 25) {
                 self.risky();
+            } else if self.rich && self.rng.chance(1, 8) {
+                self.ref_branch();
             } else {
                 self.plain();
             }
@@ -498,7 +557,7 @@ impl Em<'_> {
             }
             76..=83 => {
                 // unconditional branch (not to a loop: that would skip the counter decrement)
-                let cands: Vec<usize> = (0..self.labels.len()).filter(|d| !self.labels[self.labels.len() - 1 - d].is_loop).collect();
+                let cands: Vec<usize> = (0..self.labels.len()).filter(|d| { let l = self.labels[self.labels.len() - 1 - d]; !l.is_loop && l.arity < 100 }).collect();
                 let d = *self.rng.pick(&cands);
                 let m_br = self.mark();
                 self.branch_values(d);
@@ -514,7 +573,7 @@ impl Em<'_> {
             }
             84..=91 => {
                 // conditional branch
-                let cands: Vec<usize> = (0..self.labels.len()).filter(|d| !self.labels[self.labels.len() - 1 - d].is_loop).collect();
+                let cands: Vec<usize> = (0..self.labels.len()).filter(|d| { let l = self.labels[self.labels.len() - 1 - d]; !l.is_loop && l.arity < 100 }).collect();
                 let d = *self.rng.pick(&cands);
                 let m_br = self.mark();
                 self.branch_values(d);
@@ -578,10 +637,37 @@ impl Em<'_> {
                 self.out.push(Ins::If(BT::Empty));
                 self.labels.push(Lbl { is_loop: false, arity: 0, func_results: false });
                 let m_entry = self.mark();
-                let pre = self.mark();
+                let mut pre = self.mark();
+                // sometimes the explicit exit directly follows a conditional branch (no anchor in
+                // between): instruction adjacency matters to lowerings that look at neighbours
+                let cands: Vec<usize> = (0..self.labels.len())
+                    .filter(|d| {
+                        let l = self.labels[self.labels.len() - 1 - d];
+                        !l.is_loop && if l.func_results { self.results.is_empty() } else { l.arity == 0 }
+                    })
+                    .collect();
+                if !cands.is_empty() && self.rng.chance(1, 3) {
+                    let d = *self.rng.pick(&cands);
+                    let m_br = self.mark();
+                    self.cond();
+                    let idx = self.out.len() as u32;
+                    self.out.push(Ins::BrIf(d as u32));
+                    self.info.branches.push(BranchInfo {
+                        idx,
+                        m_br,
+                        m_post: None,
+                        targets_loop: false,
+                        conditional: true,
+                    });
+                    pre = m_br;
+                }
                 let uidx = self.out.len() as u32;
-                self.out.push(Ins::Unreachable);
-                self.info.unreachables.push((uidx, pre));
+                if self.results.is_empty() && self.rng.chance(1, 3) {
+                    self.out.push(Ins::Return);
+                } else {
+                    self.out.push(Ins::Unreachable);
+                    self.info.unreachables.push((uidx, pre));
+                }
                 let m_fall = self.mark();
                 let end = self.out.len() as u32;
                 self.out.push(Ins::End);
@@ -689,6 +775,7 @@ pub fn gen_program(rng: &mut Rng, rich: bool) -> (ModuleSpec, ProgInfo) {
             types: &mut types,
             budget: 0,
             rich,
+            ref_funcs: (0..nf as u32).map(|j| N_HOST + j).collect(),
         };
         em.budget = em.rng.range(3, 12) as i32;
         while em.budget > 0 {
@@ -707,7 +794,14 @@ pub fn gen_program(rng: &mut Rng, rich: bool) -> (ModuleSpec, ProgInfo) {
         let body = std::mem::take(&mut em.out);
         info.funcs.push(std::mem::take(&mut em.info));
         let ty = types.intern(&params, &results);
-        let decl: Vec<(u32, VT)> = all_locals[params.len()..].iter().map(|t| (1, *t)).collect();
+        // run-length encoded like real producers do (several locals per group)
+        let mut decl: Vec<(u32, VT)> = vec![];
+        for t in &all_locals[params.len()..] {
+            match decl.last_mut() {
+                Some((n, lt)) if lt == t => *n += 1,
+                _ => decl.push((1, *t)),
+            }
+        }
         m.funcs.push(FuncSpec { ty, locals: decl, body });
         m.exports.push(ExportSpec {
             name: format!("f{k}"),
@@ -716,6 +810,10 @@ pub fn gen_program(rng: &mut Rng, rich: bool) -> (ModuleSpec, ProgInfo) {
         });
     }
     m.types = types.groups;
+    m.elems.push(ElemSpec {
+        mode: ElemMode::Declared,
+        items: ElemItems::Funcs((0..nf as u32).map(|j| N_HOST + j).collect()),
+    });
     (m, info)
 }
 
